@@ -30,7 +30,9 @@ func VfQueryPeer() {
 	}
 	e.host.connectErr[p] = vfBool("dialFails")
 	queryFails := vfBool("requestFails")
-	cancelled := vfBool("lookupCancelled")
+	// 0: both contexts live; 1: the lookup ended by itself and aborted its
+	// outstanding dials (the caller's context is live); 2: the caller cancelled
+	ctxState := vfChoose("contexts", 3)
 
 	L := vfChoose("responseLen", 2*K+2)
 	resp := make([]*peer.AddrInfo, L)
@@ -48,10 +50,15 @@ func VfQueryPeer() {
 		return v
 	}
 	ctx, cancel := context.WithCancel(context.Background())
-	if cancelled {
+	pathCtx, cancelPath := context.WithCancel(ctx)
+	switch ctxState {
+	case 1:
+		cancelPath()
+	case 2:
 		cancel()
 	}
 	defer cancel()
+	defer cancelPath()
 	asked := 0
 	q := &query{dht: d, key: target, ctx: ctx, queryPeers: qpeerset.NewQueryPeerset(target),
 		queryFn: func(context.Context, peer.ID) ([]*peer.AddrInfo, error) {
@@ -65,21 +72,24 @@ func VfQueryPeer() {
 	q.waitGroup.Add(1)
 	wasMember := d.routingTable.Find(p) != ""
 
-	q.queryPeer(ctx, ch, p)
+	q.queryPeer(pathCtx, ch, p)
 
 	up := <-ch
 	isMember := d.routingTable.Find(p) != ""
 	offered := e.drainAdded()
-	dialFailed := !connected && (e.host.connectErr[p] || cancelled)
+	dialFailed := !connected && (e.host.connectErr[p] || ctxState != 0)
 	failed := dialFailed || queryFails
 	vfAssert(wasMember, "querypeer/setup")
 	vfAssert(up.cause == p, "querypeer/update-names-the-queried-peer")
 	if failed {
 		vfAssert(len(up.unreachable) == 1 && up.unreachable[0] == p && len(up.queried) == 0 && len(up.heard) == 0, "querypeer/failure-marks-only-that-peer-unreachable")
 		vfAssert(len(offered) == 0, "querypeer/failed-peer-is-not-offered-to-the-routing-table")
-		if cancelled {
+		switch {
+		case dialFailed && ctxState != 0:
+			vfAssert(isMember, "querypeer/no-eviction-when-the-dial-was-aborted-by-cancellation")
+		case !dialFailed && ctxState == 2:
 			vfAssert(isMember, "querypeer/no-eviction-when-the-lookup-was-cancelled")
-		} else {
+		default:
 			vfAssert(!isMember, "querypeer/member-failing-dial-or-request-is-evicted")
 		}
 	} else {
